@@ -161,6 +161,26 @@ class Session:
         self.peer.forced_conn = []
         return obs
 
+    def request_cancelled(self, script, at, kind='read'):
+        """A request whose caller gives up: the task awaiting it is cancelled `at` seconds after it started (what
+        task.cancel() / asyncio.wait_for / asyncio.timeout do); the task is then awaited to its end, whatever that is."""
+        import asyncio
+        self.peer.forced = list(script)
+        cmd = make_command(self.p, kind)
+
+        async def w():
+            task = asyncio.ensure_future(_exec(cmd, self.p))
+            await asyncio.sleep(at)
+            task.cancel()
+            try:
+                return await task
+            except asyncio.CancelledError:
+                return ('cancelled',)
+        res = self._run(w())
+        self.loop.settle(0)
+        self.peer.forced = []
+        return res
+
     def call(self, coro_fn):
         """Run an arbitrary coroutine (public API call) and classify its outcome."""
         async def w():
